@@ -48,8 +48,9 @@ Definition compute_flags (r : region) (origin : option region) : flags :=
       let pending_changed := negb (sorted_peers_equal (r_pending r) (r_pending o)) in
       let peers_len := negb (Nat.eqb (length (r_peers r)) (length (r_peers o))) in
       let stats := negb (r_size r =? r_size o) || negb (r_stamp r =? r_stamp o) in
+      let term_up := r_term o <? r_term r in         (* a higher reported term is remembered even if nothing else changed *)
       Flags (ver_up || conf_up || peers_len)
-            (ver_up || conf_up || leader_changed || pending_changed || peers_len || stats)
+            (ver_up || conf_up || leader_changed || pending_changed || peers_len || stats || term_up)
             (leader_changed && (r_leader o =? 0))
   end.
 
@@ -312,11 +313,17 @@ Record mon := Mon {
   m_gone : list Z;                                    (* ids displaced so far (sequential prefix) and not served again *)
   m_maxterm : list (Z * Z);                           (* per id: largest term reported since it is continuously served *)
   m_last : option (hop * hobs);                       (* the label the next snapshot closes *)
-  m_accepted : list sdig                              (* storage image of every heartbeat that was not rejected so far *)
+  m_accepted : list sdig;                             (* storage image of every heartbeat that was not rejected so far *)
+  m_ever : list (Z * (Z * Z))                         (* per id: largest version and term it was ever served with (kept across displacement) *)
 }.
 
 Fixpoint zz_get (l : list (Z * Z)) (k : Z) : Z :=
   match l with [] => 0 | (a, b) :: r => if a =? k then b else zz_get r k end.
+
+Fixpoint regs_get2 {X} (l : list (Z * X)) (k : Z) : option X :=
+  match l with [] => None | (a, b) :: r => if a =? k then Some b else regs_get2 r k end.
+Fixpoint regs_put2 {X} (l : list (Z * X)) (k : Z) (v : X) : list (Z * X) :=
+  match l with [] => [(k, v)] | (a, b) :: r => if a =? k then (a, v) :: r else (a, b) :: regs_put2 r k v end.
 
 Definition remove_all (ids : list Z) (l : list Z) : list Z := filter (fun x => negb (existsb (Z.eqb x) ids)) l.
 
@@ -350,7 +357,7 @@ Definition mon_step (wb : bool) (m : mon) (o : hop) (b : hobs) : mon * option st
   match o, b with
   | OSnap _, HoSnap c1 s1 =>
       match m_last m with
-      | None => (Mon c1 s1 (m_pending m) (m_sequential m) (m_gone m) (map (fun a => (d_id a, d_term a)) c1) None (m_accepted m), None)
+      | None => (Mon c1 s1 (m_pending m) (m_sequential m) (m_gone m) (map (fun a => (d_id a, d_term a)) c1) None (m_accepted m) (m_ever m), None)
       | Some (o0, b0) =>
           let verdict := judge wb m o0 b0 c1 s1 in
           let pend := match o0, b0 with
@@ -375,22 +382,31 @@ Definition mon_step (wb : bool) (m : mon) (o : hop) (b : hobs) : mon * option st
                                                 | None => m_accepted m end
                           | _ => m_accepted m end in
           let unaccepted := existsb (fun s => negb (existsb (sdig_eqb s) accepted)) s1 in
+          (* an acknowledged reported term is remembered *)
+          let acked := match o0 with
+                       | OHb r | OBegin _ r => match b0 with HoRes HOk => Some r | _ => None end
+                       | OStep t | ORun t => if ok_res then regs_get (m_pending m) t else None
+                       | _ => None end in
+          let forgotten := match acked with
+                           | Some r => (0 <? r_term r) && negb (existsb (fun a => (d_id a =? r_id r) && (r_term r <=? d_term a)) c1)
+                           | None => false end in
           let verdict := match verdict with
                          | Some sg => Some sg
-                         | None => if unaccepted then Some "C06:storage-holds-a-record-of-a-heartbeat-that-was-not-accepted" else
+                         | None => if forgotten then Some "C06:acknowledged-term-not-remembered" else
+                                   if unaccepted then Some "C06:storage-holds-a-record-of-a-heartbeat-that-was-not-accepted" else
                                    if term_back then Some "C06:reported-term-below-an-earlier-reported-term"
                                    else if bad_storage
                                    then Some (if wb then "C06:displaced-region-back-in-storage-after-region-storage-flush"
                                               else "C06:displaced-region-still-in-storage")
                                    else None end in
-          (Mon c1 s1 pend seq gone maxterm None accepted, verdict)
+          (Mon c1 s1 pend seq gone maxterm None accepted (m_ever m), verdict)
       end
   | _, _ =>
       (* several labels may run between two snapshots: a heartbeat handled in one piece is recorded at once *)
       let accepted := match o, b with
                       | OHb r, HoRes HOk | OSaveRaw r, _ | OBegin _ r, HoRes HOk => sdig_of r :: m_accepted m
                       | _, _ => m_accepted m end in
-      (Mon (m_cache m) (m_stor m) (m_pending m) (m_sequential m) (m_gone m) (m_maxterm m) (Some (o, b)) accepted, None)
+      (Mon (m_cache m) (m_stor m) (m_pending m) (m_sequential m) (m_gone m) (m_maxterm m) (Some (o, b)) accepted (m_ever m), None)
   end.
 
 Fixpoint mon_run (wb : bool) (m : mon) (ops : list hop) (obs : list hobs) : option string :=
@@ -406,7 +422,27 @@ Definition hop_wf (o : hop) : bool :=
   match o with OHb r | OBegin _ r => wf_region r | _ => true end.
 
 Definition h_monitor (wb : bool) (ops : list hop) (obs : list hobs) : option string :=
-  if forallb hop_wf ops then mon_run wb (Mon [] [] [] true [] [] None []) ops obs else None.
+  if forallb hop_wf ops then mon_run wb (Mon [] [] [] true [] [] None [] []) ops obs else None.
+
+(* A second, independent monitor (known finding, see KNOWN_FINDINGS.txt): version / term an id was EVER served with, also
+   across a displacement from the cache.  It is kept apart so that its verdict never hides a verdict of h_monitor. *)
+Definition ever_older (ever : list (Z * (Z * Z))) (c1 : list cdig) : bool :=
+  existsb (fun a => match regs_get2 ever (d_id a) with
+                    | Some (v, t) => (d_ver a <? v) || (d_term a <? t)
+                    | None => false end) c1.
+Definition ever_upd (ever : list (Z * (Z * Z))) (c1 : list cdig) : list (Z * (Z * Z)) :=
+  fold_left (fun acc a => match regs_get2 acc (d_id a) with
+                          | Some (v, t) => regs_put2 acc (d_id a) (Z.max v (d_ver a), Z.max t (d_term a))
+                          | None => (d_id a, (d_ver a, d_term a)) :: acc end) c1 ever.
+Fixpoint gap_run (ever : list (Z * (Z * Z))) (obs : list hobs) : bool :=
+  match obs with
+  | [] => false
+  | HoSnap c1 _ :: r => if ever_older ever c1 then true else gap_run (ever_upd ever c1) r
+  | _ :: r => gap_run ever r
+  end.
+Definition h_gap_monitor (ops : list hop) (obs : list hobs) : option string :=
+  if forallb hop_wf ops && gap_run [] obs
+  then Some "C06:region-served-again-older-than-it-was-served-before-its-displacement" else None.
 
 (* ---------------------------------------------------------------------------------------- *)
 Inductive hcase := CaseHB (wb : bool) (ops : list hop) (obs : list hobs).
@@ -430,9 +466,8 @@ Definition monitor (c : hcase) : option string :=
 Fixpoint monitor_fails_from (n : nat) (cs : list hcase) : list (nat * string) :=
   match cs with
   | [] => []
-  | c :: r => match monitor c with
-              | None => monitor_fails_from (S n) r
-              | Some sg => (n, sg) :: monitor_fails_from (S n) r
-              end
+  | c :: r => (match monitor c with None => [] | Some sg => [(n, sg)] end)
+              ++ (match c with CaseHB _ ops obs => match h_gap_monitor ops obs with None => [] | Some sg => [(n, sg)] end end)
+              ++ monitor_fails_from (S n) r
   end.
 Definition monitor_fails := monitor_fails_from 0.
